@@ -270,3 +270,41 @@ M('c10-parse-host-find-shortcut-before-brackets', 'C10', 'R6', U,
 # bracket form detected by the closing bracket: 'example]' loses its first character, '[::1' keeps its bracket
 M('c10-parse-host-bracket-by-closing-bracket', 'C10', 'R6', U,
   "    if host.startswith('['):\n", "    if ']' in host:\n")
+
+# ---- wave 8: the decoder table built some OTHER way than the pair comprehension (R2 reads whatever builds it at import time)
+HEX_TABLE = """# This map construction is based on urllib's implementation
+_HEX_TO_BYTE = {
+    (a + b).encode(): bytes([int(a + b, 16)]) for a in _HEX_DIGITS for b in _HEX_DIGITS
+}
+"""
+# seeded change s8-c10-1: filled from range(256) with the two same-case spellings of each octet (412 keys): decode('%aB') == '%aB'
+M('c10-hex-table-loop-two-spellings', 'C10', 'R2', U, HEX_TABLE,
+  "_HEX_TO_BYTE = {}\nfor _octet in range(256):\n"
+  "    _HEX_TO_BYTE[b'%02X' % _octet] = _HEX_TO_BYTE[b'%02x' % _octet] = bytes([_octet])\ndel _octet\n")
+M('c10-hex-table-loop-fstrings', 'C10', 'R2', U, HEX_TABLE,
+  "_HEX_TO_BYTE = {}\nfor _o in range(256):\n    _HEX_TO_BYTE[f'{_o:02x}'.encode()] = bytes([_o])\n"
+  "    _HEX_TO_BYTE[f'{_o:02X}'.encode()] = bytes((_o,))\n")
+M('c10-hex-table-lower-union-upper', 'C10', 'R2', U, HEX_TABLE,
+  "_LOWER_HEX = {('%02x' % i).encode(): bytes([i]) for i in range(256)}\n"
+  "_HEX_TO_BYTE = _LOWER_HEX | {k.upper(): v for k, v in _LOWER_HEX.items()}\n")
+M('c10-hex-table-zip-then-update', 'C10', 'R2', U, HEX_TABLE,
+  "_HEX_TO_BYTE = dict(zip([hex(i)[2:].zfill(2).encode() for i in range(256)], [i.to_bytes(1, 'big') for i in range(256)]))\n"
+  "_HEX_TO_BYTE.update({k.upper(): v for k, v in _HEX_TO_BYTE.items()})\n")
+M('c10-hex-table-spellings-helper', 'C10', 'R2', U, HEX_TABLE,
+  "def _spellings(octet):\n    return ('{:02x}'.format(octet).encode(), '{:02X}'.format(octet).encode())\n\n\n"
+  "_HEX_TO_BYTE = {k: bytes([o]) for o in range(256) for k in _spellings(o)}\n")
+# complete key set, but built from the octet's nibbles in the wrong order: decode('%2F') == '\xf2'
+M('c10-hex-table-loop-nibbles-swapped', 'C10', 'R2', U, HEX_TABLE,
+  "_HEX_TO_BYTE = {}\nfor _a in _HEX_DIGITS:\n    for _b in _HEX_DIGITS:\n"
+  "        _HEX_TO_BYTE[(_a + _b).encode()] = bytes([int(_b + _a, 16)])\n")
+
+# ---- wave 8: parse_host splits, it does not normalise (R6: the host returned is the parameter or a contiguous piece of it)
+# seeded change s8-c10-2 ("RFC 3986 3.2.2: host is case-insensitive"): parse_host('Example.COM:8080')[0] == 'example.com'
+M('c10-parse-host-lowercases-name-with-port', 'C10', 'R6', U, "    return (name, int(port))\n", "    return (name.lower(), int(port))\n")
+M('c10-parse-host-lowercases-name-local', 'C10', 'R6', U, "    return (name, int(port))\n", "    name = name.casefold()\n    return (name, int(port))\n")
+M('c10-parse-host-strips-bare-host', 'C10', 'R6', U, "        return (host, default_port)\n", "        return (host.strip(), default_port)\n")
+M('c10-parse-host-drops-trailing-dot', 'C10', 'R6', U, "    return (name, int(port))\n", "    return (name.rstrip('.'), int(port))\n")
+M('c10-parse-host-idna-bare-host', 'C10', 'R6', U, "        return (host, default_port)\n",
+  "        return (host.encode('idna').decode('ascii'), default_port)\n", also=('C09',))
+M('c10-parse-host-uppercases-ipv6', 'C10', 'R6', U, "            return (host[1:-1], default_port)\n",
+  "            return (host[1:-1].upper(), default_port)\n")
